@@ -192,12 +192,12 @@ def mkcfg(nupd, pos, reg, init=((), ()), keymode="pos", fmt=None, maxp=RP, maxu=
     nupd = pad(nupd, maxp, 0)
     pos = [pad(r, maxu, 1) for r in pad(pos, maxp, [])]
     reg = [pad([list(x) for x in r], maxu, []) for r in pad(reg, maxp, [])]
-    return {"nupd": nupd, "pos": pos, "reg": reg, "init": [list(init[0]), list(init[1])], "keymode": keymode,
+    return {"id": 0, "nupd": nupd, "pos": pos, "reg": reg, "init": [list(init[0]), list(init[1])], "keymode": keymode,
             "fmt": pad(fmt or [], maxp, 0)}
 
 
 def cfg_lit(c):
-    return tla.lit({"nupd": tuple(c["nupd"]), "pos": tuple(tuple(r) for r in c["pos"]),
+    return tla.lit({"id": c["id"], "nupd": tuple(c["nupd"]), "pos": tuple(tuple(r) for r in c["pos"]),
                     "reg": tuple(tuple(tuple(x) for x in r) for r in c["reg"]),
                     "init": tuple(tuple(x) for x in c["init"]), "keymode": c["keymode"], "fmt": tuple(c["fmt"])})
 
@@ -234,10 +234,12 @@ SAFETY = ["TypeOK", "Mutex", "NoPartialRead", "NoLostUpdate", "SerialPrefix", "E
 
 
 def mc_module(name, cfgs, extra=()):
-    return tla.module(name, ["TileLock", "Json"], [("MCCfgs", "<<" + ", ".join(cfg_lit(c) for c in cfgs) + ">>")] + list(extra))
+    for k, c in enumerate(cfgs, 1):
+        c["id"] = k
+    return tla.module(name, ["TileLock", "Json"], [("MCCfgs", "{" + ", ".join(cfg_lit(c) for c in cfgs) + "}")] + list(extra))
 
 
-EMIT = ('Emit == PrintT(<<"S", ToJson([lvl |-> TLCGet("level"), ci |-> ci, a |-> act[1], p |-> act[2], pc |-> pc, upd |-> upd, '
+EMIT = ('Emit == PrintT(<<"S", ToJson([lvl |-> TLCGet("level"), ci |-> cfg.id, a |-> act[1], p |-> act[2], pc |-> pc, upd |-> upd, '
         'buf |-> buf, tile |-> tile, hold |-> [t \\in Poss |-> lock[<<t, 0>>]]])>>)')
 
 
@@ -292,6 +294,12 @@ def l1_scenarios(rng, quick):
         cfg = fams[fam](n)
         style = [[rng.choice(["full", "slice"]) for _ in range(RU)] for _ in range(RP)]
         out.append({"name": "%s/%d/%s-%s" % (fam, n, fmt, mode), "fmt": fmt, "mode": mode, "cfg": cfg, "style": style, "idx": idx})
+    # the in-tree caller toast.ToastSampler (update mode): its `with` body cannot be observed, only the final files
+    for k in ((1, 2) if quick else range(len(kinds))):
+        fmt, mode = kinds[k]
+        cfg = mkcfg([2, 2, 2], [[1, 1], [1, 2], [1, 1]], [[[1], [1, 4]], [[2], [2, 4]], [[3], [3, 4]]], init=((), (1,)))
+        out.append({"name": "toast-sampler/3/%s-%s" % (fmt, mode), "fmt": fmt, "mode": mode, "cfg": cfg, "style": None, "idx": len(out),
+                    "caller": "toast"})
     return out
 
 
@@ -312,10 +320,19 @@ def _l1_updater(p, sc, d, sh):
         pio = PyramidIO(d, default_format=sc["fmt"])
         cfg = sc["cfg"]
         mode = sc["mode"]
+        tiles = {}
+        if sc.get("caller") == "toast":
+            from toasty.toast import ToastSampler, generate_tiles
+            tiles = {tuple(tl.pos): tl for tl in generate_tiles(POS_XY[1][0])}
+            flip = pio.get_default_vertical_parity_sign() == 1      # visit_callback flips rows for bottom-up formats
         barrier.wait(30)
         for i in range(1, cfg["nupd"][p - 1] + 1):
             t = cfg["pos"][p - 1][i - 1]
             region = cfg["reg"][p - 1][i - 1]
+            if tiles:
+                arr = lifted(mode, [rid(p, i) if j in region else 0 for j in range(1, NPIX + 1)])
+                ToastSampler(pio, (lambda lon, lat, arr=arr: arr[::-1] if flip else arr), False).visit_callback(real_pos(t), tiles[POS_XY[t]])
+                continue
             with pio.update_image(real_pos(t), masked_mode=mode_of(mode), default="masked", **update_kwargs(sc, p)) as basis:
                 t0 = draw()                                   # before the work
                 with cond:                                    # rendezvous: succeeds iff a second body is inside this tile now
@@ -811,7 +828,7 @@ CONSTANTS
  MaxU = %d
  NPix = 4
  NPos = 2
- Cfgs <- TraceCfgs
+ Cfgs = {}
 INVARIANT Consumed
 INVARIANT TraceSafe
 POSTCONDITION Report
@@ -911,7 +928,7 @@ def run(ctx):
                                           cfg_text=MC_CFG % ("Spec", 3, 3, inv), workers=6, timeout=6000))
         ctx.note("mc_bound_thorough", "also 4 processes x 2 updates and 3 processes x 3 updates (2 configurations each), all interleavings")
     sims = sim_configs()
-    nsim = 100 if quick else 1200
+    nsim = 100 if quick else 2000
     bg.start("sim", lambda: ctx.tlc("MCTileLockSim", extra={"MCTileLockSim.tla": mc_module("MCTileLockSim", [s["cfg"] for s in sims], [EMIT])},
                                     cfg_text=MC_CFG % ("Spec", RP, RU, "INVARIANT Emit\nINVARIANT Mutex\nINVARIANT NoLostUpdate"),
                                     simulate=nsim, depth=400, workers=1, timeout=3000, count=False))
@@ -950,7 +967,7 @@ def run(ctx):
     ctx.note("layer2", "on" if layer2 else "skipped: update_image does not reach filelock.SoftFileLock._acquire/_release (gates seen: %s)" % probe["gates"])
     traces = []      # (kind, sc, rec, hidden)
     for sc, rec in zip(scs, l1):
-        traces.append(("real processes", sc, rec, L1_HIDDEN))
+        traces.append(("real processes", sc, rec, L1_HIDDEN + (["read", "modify"] if sc.get("caller") else [])))
         ctx.count(sum(sc["cfg"]["nupd"]))
     ndrift_steps = 0
     if layer2:
@@ -1013,7 +1030,7 @@ def run(ctx):
         ctx.note("dfs_2x1", {"schedules": nruns, "complete": explored_all, "failed_attempts_per_updater_at_most": fb})
         # 2b random: bigger instances
         rsc = [dict(s, name="rand-" + s["name"]) for s in sims]
-        for k in range(40 if quick else 400):
+        for k in range(40 if quick else 600):
             sc = rsc[k % len(rsc)]
             r2 = __import__("random").Random(ctx.seed * 1000 + k)
             rec, _ = explore_run(sc, ctx.mkdtemp("rnd"), lambda H, allowed, n, r2=r2: r2.randrange(len(allowed)))
